@@ -9,7 +9,7 @@ import numpy as np
 from vlib import sigfile
 
 WRITERS = ("invert_freq", "apply_channel_mask", "downsample", "extract_samps", "extract_chans", "extract_bands", "subband", "remove_zerodm",
-           "requantize", "block_to_file", "ts_to_tim", "fs_to_spec", "extract_chans_b2", "extract_bands_b2")
+           "requantize", "block_to_file", "ts_to_tim", "fs_to_spec", "extract_chans_b2", "extract_bands_b2", "mask_none_2files")
 N, NCH = 24, 8
 
 
@@ -63,6 +63,13 @@ def run_writer(writer, d, gulp, nbits=8, seed=0, preexisting=False):
     fil = FilReader(p)
     kw = {"gulp": gulp, "quiet": True, "description": "v"}
     out = os.path.join(d, "out.fil")
+    if writer == "mask_none_2files":
+        # clean data (nothing flagged) spread over two files, whole range through the default arguments: still a streamed, complete product
+        pa, pb = sigfile.write_split(d, X, nbits, [10, N - 10], fch1=1500.0, foff=-10.0, tsamp=1e-3, stem="part")
+        os.rename(pa, os.path.join(d, "in.fil"))        # names the hooks and the listing treat as inputs
+        os.rename(pb, os.path.join(d, "in2.fil"))
+        fil2 = FilReader([os.path.join(d, "in.fil"), os.path.join(d, "in2.fil")])
+        return [fil2.apply_channel_mask(np.zeros(NCH, dtype=bool), 3, out, gulp=gulp, quiet=True, description="v")]
     if writer == "invert_freq":
         return [fil.invert_freq(out, **kw)]
     if writer == "apply_channel_mask":
@@ -113,7 +120,7 @@ def child_main(argv):
 
         def f(self, arg):
             r = orig(self, arg)
-            if not self.files[0].endswith("in.fil"):
+            if not self.files[0].endswith(("in.fil", "in2.fil")):
                 state["n"] += 1
                 with open(os.path.join(d, ".writes"), "a") as lf:     # which products have received bytes so far (read by the parent after the crash)
                     lf.write(os.path.basename(self.files[0]) + "\n")
